@@ -94,6 +94,7 @@ namespace sqf::runtime
 
     private:
         void clear_values_helper(runtime& runtime);
+        bool abort_if_max_runtime_reached(runtime& runtime);
     public:
         static const size_t position_invalid = ~(size_t)0;
         frame() :
@@ -288,6 +289,14 @@ namespace sqf::runtime
                 case behavior::result::seek_start:
                     seek(0, ::sqf::runtime::frame::seekpos::start);
                     clear_values_helper(runtime);
+                    // A loop without instructions in its body never returns to the scheduler,
+                    // which is where the runtime limit is checked otherwise
+                    if (m_instruction_set.empty() && abort_if_max_runtime_reached(runtime))
+                    {
+                        seek(0, ::sqf::runtime::frame::seekpos::end);
+                        m_die = true;
+                        return result::done;
+                    }
                     goto start; // do not call here, reuse current stack
                 case behavior::result::exchange:
                     m_instruction_set = m_exit_behavior->get_instruction_set(*this);
